@@ -37,6 +37,8 @@ def xml_of(m):
     s = ['<?xml version="1.0" encoding="utf-8"?>', "<nta>", "<declaration>%s</declaration>" % escape(" ".join(m["gdecl"]))]
     for ti, t in enumerate(m["templates"]):
         s.append("<template><name>%s</name>" % t["name"])
+        if t.get("param"):
+            s.append("<parameter>%s</parameter>" % escape(t["param"]))
         s.append("<declaration>%s</declaration>" % escape(" ".join(t["decl"])))
         for lid, inv in t["locs"]:
             lab = '<label kind="invariant">%s</label>' % escape(inv) if inv else ""
@@ -205,7 +207,23 @@ def gen_model(r):
             if r.random() < 0.3:
                 sysdecl.append("U%d = %s();" % (k, t["name"]))  # declared instance that is not part of the system
             continue
-        if r.random() < 0.5:
+        if r.random() < 0.4:
+            # a template with a parameter is "instantiated" however it reaches the system line: as a process set with the parameter
+            # left free, fully bound, through a partial instance that leaves a parameter free, or in two steps
+            t["param"] = "const int[0,1] tp%d" % k
+            form = r.choice(["set", "bound", "partial", "two-step"])
+            if form == "set":
+                names.append(t["name"])
+            elif form == "bound":
+                sysdecl.append("P%d = %s(1);" % (k, t["name"]))
+                names.append("P%d" % k)
+            elif form == "partial":
+                sysdecl.append("Q%d(const int[0,1] qi%d) = %s(qi%d);" % (k, k, t["name"], k))
+                names.append("Q%d" % k)
+            else:
+                sysdecl.append("Q%d(const int[0,1] qi%d) = %s(qi%d); R%d = Q%d(0);" % (k, k, t["name"], k, k, k))
+                names.append("R%d" % k)
+        elif r.random() < 0.5:
             sysdecl.append("P%d = %s();" % (k, t["name"]))
             names.append("P%d" % k)
         else:
